@@ -5,8 +5,10 @@ CONSTANTS
   Sites = {1, 4}
   StrLens = {0, 5}
   CallocShapes <- ShapesQuick
+  SrcOffsets = {0, 1}
+  HugeSizes <- HugeAll
   Levels = {0, 6}
   Obs <- ObsEmit
-INVARIANTS TypeOK TableIsLiveSet UnknownPointerNoChange ReallocNullAllocates ReallocZeroFrees ReallocKeepsOthers
+INVARIANTS TypeOK TableIsLiveSet UnknownPointerNoChange ReallocNullAllocates ReallocZeroFrees ReallocKeepsOthers RefusedChangesNothing
 PROPERTY LevelConstant
 CHECK_DEADLOCK FALSE
